@@ -10,8 +10,8 @@ from . import c02, c03
 
 PROP = "C01"
 PROPS_FILE = "theories/Props/C01.v"
-THEOREMS = ["c01_identity_at_zero", "c01_derivative", "c01_blockwise", "c01_unique", "c01_exact_flow", "c01_semigroup"]
-GEN_FILES = []
+THEOREMS = ["c01_identity_at_zero", "c01_derivative", "c01_blockwise", "c01_unique", "c01_exact_flow", "c01_semigroup", "c01_flags_leave_analytic_untouched"]
+GEN_FILES = ["PreserveGen.v"]
 ALLOWED_AXIOMS = []
 TRUSTED = ["Coq 8.16.1 kernel + vm_compute",
            "algebraic theorems (c01_identity_at_zero, c01_derivative, c01_blockwise) closed under the global context; the real-analysis bridge (c01_unique, c01_exact_flow, c01_semigroup; Coquelicot) depends on the standard library's axioms ClassicalDedekindReals.sig_not_dec, sig_forall_dec, FunctionalExtensionality.functional_extensionality_dep, Classical_Prop.classic",
@@ -234,6 +234,41 @@ def run(ctx):
             coq.append("{| q_n := %d; q_shapes := %s; q_rho := %s; q_keep := %s; q_h := %s; q_P := []; q_ok := false; q_obs := [] |}" % (
                 n, U.cshapes(s), U.crho(s, pt), C.clist([C.cbool(b) for b in keep]), U.cq(1)))
             info.append({"indict": t["indict"], "outcome": api, "detail": r.get("detail")})
+    # ---- function-of-time and mixed-form inputs (probe only): the expected flow is that of the equivalent equations;
+    #      default and non-default time symbol (the function text rewritten accordingly), both step-size names
+    import copy as _copy2
+    from . import c06 as _c06
+    fot_tasks = []
+    for F in _c06.FORMULATIONS:
+        for tsym in ("t", rng.choice(["T", "s", "time_"])):
+            ind_ = _copy2.deepcopy(F["fot"])
+            for d_ in ind_["dynamics"]:
+                d_["expression"] = re.sub(r"\bt\b", tsym, d_["expression"])
+            opts_ = {}
+            if tsym != "t":
+                opts_["input_time_symbol"] = tsym
+            if rng.random() < 0.5:
+                opts_["output_timestep_symbol"] = rng.choice(["dt", "h_"])
+            if opts_:
+                ind_["options"] = opts_
+            fot_tasks.append({"fn": "sysimpl.run_c01", "indict": ind_, "reference_indict": F["ode"], "point": {}, "pseed": rng.randint(1, 10 ** 6), "api_timeout": 120, "timeout": 400, "formulation": F["name"]})
+    dist["function_of_time_inputs"] = {"tasks": len(fot_tasks), "probed": 0, "rejected": 0}
+    for t_, r_ in zip(fot_tasks, C.run_tasks(fot_tasks, timeout=400)):
+        if r_.get("outcome") != "Ok" or r_.get("api") != "Ok":
+            dist["function_of_time_inputs"]["rejected"] += 1
+            if r_.get("api") not in ("PropGen", "Timeout"):
+                probe_failures.append({"key": "function-of-time input not analysed: " + C.stable_hash(t_["indict"]), "what": "analysis() gives %s (%s) for %s" % (r_.get("api", r_.get("outcome")), r_.get("detail"), t_["indict"]), "replay": {"task": t_}})
+            continue
+        pr_ = r_.get("probe", {})
+        if "worst" in pr_:
+            dist["function_of_time_inputs"]["probed"] += 1
+            nontriv.add(C.stable_hash(t_["indict"]))
+            if pr_["worst"] > 1e-12:
+                probe_failures.append({"key": "update is not the exact flow: " + C.stable_hash(t_["indict"]),
+                                       "what": "%s | function-of-time input %s (expected flow: that of %s)" % (pr_["detail"], t_["indict"], t_["reference_indict"]["dynamics"]), "replay": {"task": t_}})
+        elif "error" in pr_ or "skipped" in pr_:
+            probe_failures.append({"key": "function-of-time input: variables differ from the equivalent equations: " + C.stable_hash(t_["indict"]),
+                                   "what": "analytic variables %s returned for %s cannot be matched with %s (%s)" % (r_.get("analytic_vars"), t_["indict"], t_["reference_indict"]["dynamics"], pr_), "replay": {"task": t_}})
     mism, errs = C.coq_eval_shards(PROP, HEADER, coq, per=30)
     corr_errors += errs
     corr_mismatches = [{"layer": "analytic update expressions (propagator symbols bound to independent rationals) vs Model/Propagator.update", "case": info[i]} for i in mism[:8]]
